@@ -798,6 +798,75 @@ func runC03(c *core.Ctx) {
 			}
 		}
 	}
+	// ---- (iii-k) variable maps an application can build in Go that no JSON decoder would: typed nil maps and slices, nil pointers,
+	// for variables of input-object, list and scalar type (with and without defaulted fields)
+	if own() {
+		var nilMap map[string]interface{}
+		var nilList []interface{}
+		var nilStr *string
+		vals := []struct {
+			name string
+			v    interface{}
+		}{{"nil map", nilMap}, {"nil slice", nilList}, {"nil *string", nilStr}, {"map holding a nil map", map[string]interface{}{"sub": nilMap, "min": 1}}, {"list holding a nil map", []interface{}{nilMap}}}
+		reqs := []string{"query Q($v: Filter) { pick(in: $v) }", "query Q($v: [Filter]) { pick(fs: $v) }", "query Q($v: Filter = {min: 1}) { pick(in: $v) }", "query Q($v: [String]) { pick(ss: $v) }",
+			"query Q($v: String) { echo(s: $v) }", "query Q($v: [[Int]]) { pick(m: $v) }", "query Q($v: Filter) { pick(in: {min: 1, sub: $v}) }"}
+		for _, v := range vals {
+			for _, rq := range reqs {
+				st.resolveAll("go-built-variable:"+v.name, rq, "Q", map[string]interface{}{"v": v.v})
+			}
+		}
+	}
+	// ---- (iii-l) roots that never got a schema (nothing loaded; only a refused load; a nil resolver object): every kind of request,
+	// the printers and introspection. And what ParseExecutable hands back TOGETHER with an error, printed.
+	if own() {
+		mk := []struct {
+			name string
+			f    func() *ggql.Root
+		}{
+			{"nothing loaded", func() *ggql.Root { return ggql.NewRoot(c16Dummy{}) }},
+			{"nothing loaded, nil resolver", func() *ggql.Root { return ggql.NewRoot(nil) }},
+			{"only a refused load", func() *ggql.Root { r := ggql.NewRoot(c16Dummy{}); _ = r.ParseString("type Query { a: Zq7 }"); return r }},
+			{"only a load refused at validation", func() *ggql.Root { r := ggql.NewRoot(c16Dummy{}); _ = r.ParseString("type Query { a: Int }\ntype Bad7 {}"); return r }},
+		}
+		for _, m := range mk {
+			for _, rq := range []string{"{ a }", "{ __typename }", "{ __schema { types { name } } }", "mutation { a }", "subscription { a }", "query Q($v: Int) { a(x: $v) }", "{", ""} {
+				if !c.NextCase("root without a schema (" + m.name + ") ResolveString / SDL / ParseExecutable: " + rq) {
+					continue
+				}
+				c.Eval()
+				c.R.Distinct++
+				c.Nontrivial()
+				if pi := core.Safe(func() {
+					root := m.f()
+					res := root.ResolveString(rq, "", map[string]interface{}{"v": 1})
+					_ = ggql.WriteJSONValue(io.Discard, res, -1)
+					_ = root.SDL(false, true)
+					_ = root.SDL(true)
+					if exe, _ := root.ParseExecutableString(rq); exe != nil {
+						_ = exe.String()
+					}
+				}); pi != nil {
+					st.panicked("root-without-schema", "ResolveString", pi, m.name+": "+rq)
+				}
+			}
+		}
+		// the executable a parse hands back beside its error (validation errors come with the document that was read)
+		for _, rq := range []string{"query($a:){a}", "query($a: Zq7){a}", "{ a @zq7 }", "{ ...F }", "fragment F on Zq7 { a } { ...F }", "query Q { a } query Q { a }", "{ a(x: $nope) }", "query($a: Int = ){a}", "query($a: [Int){a}"} {
+			if !c.NextCase("ParseExecutableString + String() of whatever came back: " + rq) {
+				continue
+			}
+			c.Eval()
+			c.R.Distinct++
+			c.Nontrivial()
+			if pi := core.Safe(func() {
+				if exe, _ := st.roots.roots[1].ParseExecutableString(rq); exe != nil {
+					_ = exe.String()
+				}
+			}); pi != nil {
+				st.panicked("executable-returned-with-error", "ParseExecutableString+String", pi, rq)
+			}
+		}
+	}
 	// ---- (iv) reader faults at every Read call of every corpus document
 	for di, doc := range append(append([]string{}, exeCorpus[:6]...), sdlCorpus[:3]...) {
 		isSDL := di >= 6
